@@ -221,4 +221,17 @@ def driveGo (b : Backend) (maxBytes : Nat) : Nat → Int → Nat → NwSt → In
 def drive (b : Backend) (maxBytes : Nat) (st : NwSt) : Int × Nat × NwSt :=
   driveGo b maxBytes (st.sched.length + st.q.length + 2) 0 0 st
 
+/-! ### schedule classes used as hypotheses of the progress theorems -/
+
+/-- every answer is a non-empty acceptance (a socket that is never full) -/
+def AllOkPos (s : List WrRes) : Prop := ∀ r ∈ s, ∃ k, r = .ok k ∧ k > 0
+
+/-- socket answers after which the write is simply tried again -/
+def Retryable : WrRes → Prop
+  | .ok k => 0 < k
+  | .eagain => True
+  | .eintr => True
+  | _ => False
+
+
 end LtVerif
